@@ -335,6 +335,15 @@ def widths_desc():
             tv = svals[(i * 7 + 3) % len(svals)]
             py = {"s": sv, "u": uv, "t": tv}
             jobs.append((name, py, gen.to_model(d, ("struct", name), py)))
+    # enums at every width boundary (largest value 0 included), each followed by a byte that shows any shift
+    for m in (0, 1, 2, 3, 4, 7, 8, 15, 16, 255, 256, 1000, 65535, 65536):
+        vals = sorted({0, m, m // 2})
+        d.enums.append((f"En{m}", [(f"K{m}_{v}", v) for v in vals]))
+        name = f"WE{m}"
+        d.structs.append((name, [("e", 0, ("enum", f"En{m}")), ("t", 1, ("u", 8)), ("e2", 2, ("enum", f"En{m}"))]))
+        for v in vals:
+            py = {"e": v, "t": 0xA5, "e2": vals[-1]}
+            jobs.append((name, py, gen.to_model(d, ("struct", name), py)))
     return d, jobs
 
 
